@@ -591,6 +591,8 @@ def c18(tier):
     # (b) valid programs: every program family through read()+solve() in Release and Debug+ASan+UBSan;
     #     only abnormal outcomes (abort, assertion, sanitizer report, foreign exception, no answer) are judged here
     fam_stats = []
+    # (b') syntactically valid but ill-typed programs: a reported error (or an answer), never an abnormal termination
+    fam_stats.append(named(run_family(out, "fam_ill", ["rel", "dbg"], tier, limit_ms=15000, only_keys_prefix="C18"), "fam_ill"))
     for fam in ("fam_cn", "fam_tl", "fam_rules", "fam_oo", "fam_eval"):
         if tier == "quick" and fam == "fam_eval":
             continue  # 28k expression programs: already run under the sanitizers by C16's quick check (dbg-hadd-ci); here in the thorough tier
@@ -615,7 +617,10 @@ def c18(tier):
                 "Release build and in the Debug+ASan+UBSan build; plus the valid token sequences and expression programs of C16 under the "
                 "sanitizers; plus EVERY byte string of length <=5 (thorough 6) over the 16-symbol JSON alphabet { } [ ] \" : , 1 - . e t n SP \\ a "
                 "through json::from_json + to_json (smt/json) in both builds. Allowed outcomes: accepted, or a std::exception, within 0.4 s (confirmed alone with 2 s); anything else "
-                "(signal, std::terminate, sanitizer report, other exception, hang, >1 GB) is a violation. (b) valid programs: every program "
+                "(signal, std::terminate, sanitizer report, other exception, hang, >1 GB) is a violation. (b') ill-typed programs (lib/fam_ill.py): every binary operator on every ordered pair of "
+                "{bool, real, object, string} operands and every unary operator, as statement, in a disjunct and in a rule (thorough: as "
+                "initialiser too), through read()+solve() in Release and Debug+ASan: an answer or a reported error, never a signal. "
+                "(b) valid programs: every program "
                 "of the families of C01-C06, C16, C17 (constraint networks, timelines, rules, objects, expression evaluation) through "
                 "read()+solve() in Debug+ASan+UBSan (thorough: four configurations incl. Release and the evaluation family): no abort, assertion, sanitizer report, "
                 "foreign exception, and an answer within 15 s (confirmed alone with 45 s). (c) valid API sequences: the histories of C07 "
